@@ -289,6 +289,22 @@ class Ctx:
                         a = self.const_value(ids2[1])
                         if a is not None and a * e == 1:
                             ax.append("(=> (and (>= %s 0.0) (= %s u%d)) (= %s %s))" % (args2[0], b, i2, u, args2[0]))
+        # ground arguments: a power / root of a variable-free argument gets an exact rational enclosure
+        for i, (k, ids, args) in sorted(apps.items()):
+            if k not in ("pow", "cbrt", "sqrt"): continue
+            base = self.ground_fraction(ids[0])
+            if base is None or base < 0: continue
+            if k == "pow":
+                e = self.const_value(ids[1])
+                if e is None or e <= 0: continue
+                num, den = e.numerator, e.denominator
+            elif k == "cbrt": num, den = 1, 3
+            else: num, den = 1, 2
+            if base == 0: ax.append("(= u%d 0.0)" % i); continue
+            if base == 1: ax.append("(= u%d 1.0)" % i); continue
+            br = root_bracket(base, num, den)
+            if br is not None:
+                ax.append("(and (< %s u%d) (< u%d %s))" % (rat(br[0]), i, i, rat(br[1])))
         # numeric brackets: a comparison of (an affine function of) a power / root with a constant is decided by
         # comparing the base with a rational bracket of the exact root (verified in exact integer arithmetic)
         for (theta, ufid) in self.thresholds():
@@ -354,6 +370,28 @@ class Ctx:
             decl.append("(declare-const h%d Real)" % i)
             ax.append("(and (>= h%d 0.0) (= (* h%d h%d) (+ (* %s %s) (* %s %s))))" % (i, i, i, xv, xv, yv, yv))
         return decl, ax
+
+    def ground_fraction(self, i, depth=0):
+        """exact value of a ground term (idealised constants combined by + - * / neg min max abs), else None"""
+        if depth > 300: return None
+        n = self.nodes[i]; k = n[0]
+        if k == "const": return idealise(int(n[1]), n[2])
+        if k in ("add", "sub", "mul", "div", "min", "max"):
+            a = self.ground_fraction(n[1], depth + 1)
+            if a is None: return None
+            b = self.ground_fraction(n[2], depth + 1)
+            if b is None: return None
+            if k == "add": return a + b
+            if k == "sub": return a - b
+            if k == "mul": return a * b
+            if k == "div": return a / b if b != 0 else None
+            if k == "min": return min(a, b)
+            return max(a, b)
+        if k == "neg":
+            a = self.ground_fraction(n[1], depth + 1); return None if a is None else -a
+        if k == "abs":
+            a = self.ground_fraction(n[1], depth + 1); return None if a is None else abs(a)
+        return None
 
     def affine_leaves(self, i, depth=0):
         """[(alpha, uf node id, beta)] for the ite-leaves of node i that are affine in exactly one UF application"""
@@ -564,7 +602,8 @@ def check_path(prop, prog, meta, rec, timeout):
             if vv != "sat":
                 break
     # 1. definedness
-    dgoals = ctx.definedness([c for _, c in goals] + [c for _, c in rec["outputs"]])
+    # definedness: only for values the REAL code produced (declared outputs); spec-side terms of the ensures are not obligations
+    dgoals = ctx.definedness([c for _, c in rec["outputs"]])
     items = [("ensure." + n, ctx.t(c), True, [c]) for n, c in goals] + [(n, c, False, None) for n, c in dgoals]
     for name, smt_goal, is_ensure, groots in items:
         o = Ob("%s.%s" % (base, name), "smt", "complete", meta["func"], meta["desc"] + " [" + name + "]")
@@ -585,7 +624,7 @@ def check_path(prop, prog, meta, rec, timeout):
             for c in rec["assumes"]: ctx2.t(c)
             g2 = ctx2.t(dict(goals)[name[7:]]) if is_ensure else smt_goal
             if not is_ensure:
-                dg2 = dict(ctx2.definedness([c for _, c in goals] + [c for _, c in rec["outputs"]]))
+                dg2 = dict(ctx2.definedness([c for _, c in rec["outputs"]]))
                 g2 = dg2.get(name, smt_goal)
             q2 = ctx2.query(g2)
             names = [n for n, _, _, _ in rec["vars"]]
